@@ -46,7 +46,9 @@ def _names(text_or_node: Any) -> set[str]:
 
 
 def _assume(e: ast.AST, pos: bool) -> set[str]:
-    """Guard facts implied by e being truthy (pos) / falsy."""
+    """Guard facts implied by e being truthy (pos) / falsy.  Facts: `T:x` / `F:x` (x truthy / falsy), `K:d|k` (k is a key of
+    d), and two-literal disjunctions `O:l1||l2` (from the failing edge of `a and b` / the passing edge of `a or b`), resolved
+    against the other facts where a site is judged."""
     out: set[str] = set()
     if isinstance(e, ast.UnaryOp) and isinstance(e.op, ast.Not):
         return _assume(e.operand, not pos)
@@ -54,6 +56,15 @@ def _assume(e: ast.AST, pos: bool) -> set[str]:
         if (isinstance(e.op, ast.And) and pos) or (isinstance(e.op, ast.Or) and not pos):
             for v in e.values:
                 out |= _assume(v, pos)
+        elif len(e.values) == 2:
+            a, b = (_assume(v, pos) for v in e.values)
+            a = {x for x in a if not x.startswith("O:")}
+            b = {x for x in b if not x.startswith("O:")}
+            if len(a) == 1 and len(b) == 1:
+                out.add("O:" + "||".join(sorted([next(iter(a)), next(iter(b))])))
+        return out
+    if isinstance(e, (ast.Name, ast.Attribute)) and not pos:
+        out.add("F:" + U(e))
         return out
     if isinstance(e, ast.NamedExpr):
         if pos and isinstance(e.target, ast.Name):
@@ -72,8 +83,25 @@ def _assume(e: ast.AST, pos: bool) -> set[str]:
     return out
 
 
+def _resolve(have: set[str]) -> set[str]:
+    """Close a fact set under unit resolution of its two-literal disjunctions."""
+    have = set(have)
+    neg = {"T": "F", "F": "T"}
+    changed = True
+    while changed:
+        changed = False
+        for f_ in list(have):
+            if f_.startswith("O:"):
+                l1, l2 = f_[2:].split("||", 1)
+                for a, b in ((l1, l2), (l2, l1)):
+                    if a[0] in neg and (neg[a[0]] + a[1:]) in have and b not in have:
+                        have.add(b)
+                        changed = True
+    return have
+
+
 def _fact_names(fact: str) -> set[str]:
-    body = fact[2:]
+    body = fact[2:].replace("||", "|").replace("T:", "").replace("F:", "").replace("K:", "")
     out: set[str] = set()
     for part in body.split("|"):
         try:
@@ -91,7 +119,17 @@ class _Guards(Problem):
         return frozenset()
 
     def join(self, a, b, at):
-        return a & b
+        common = a & b
+        da = [x for x in a - b if not x.startswith("O:")]
+        db = [x for x in b - a if not x.startswith("O:")]
+        if 0 < len(da) <= 3 and 0 < len(db) <= 3:
+            # what holds on one path or on the other (the two exits of a short-circuit test): kept as two-literal disjunctions
+            common = set(common)
+            for x in da:
+                for y in db:
+                    common.add("O:" + "||".join(sorted([x, y])))
+            return frozenset(common)
+        return common
 
     @staticmethod
     def _kill_names(st: set[str], names: set[str]) -> None:
@@ -103,6 +141,10 @@ class _Guards(Problem):
     def _kill_path(st: set[str], path: str) -> None:
         """A call may write `path` (an access path text such as state.env or cache): drop facts about containers under it."""
         for fact in list(st):
+            if fact.startswith("O:"):
+                if path.split(".")[0].split("[")[0] in _fact_names(fact):
+                    st.discard(fact)
+                continue
             if fact.startswith("K:"):
                 d = fact[2:].split("|", 1)[0]
                 if d == path or d.startswith(path + ".") or d.startswith(path + "[") or path.startswith(d + ".") or path.startswith(d + "["):
@@ -525,7 +567,7 @@ def rule_partial(c: Ctx) -> RuleResult:
 
             def holds(fact: str) -> bool:
                 for n in owners:
-                    have = set(res[n.id]) | _local_guards(f, site, n.ast if n.ast is not None else site)
+                    have = _resolve(set(res[n.id]) | _local_guards(f, site, n.ast if n.ast is not None else site))
                     if fact not in have:
                         return False
                 return True
